@@ -199,6 +199,8 @@ impl<T> Signal<T> {
     #[inline(always)]
     #[cfg(feature = "async")]
     pub(crate) fn register_waker(&mut self, waker: &Waker) {
+        #[cfg(kanal_verif)]
+        crate::verif::field_write(&self.waker);
         self.waker = KanalWaker::Async(waker.clone())
     }
 
@@ -206,6 +208,8 @@ impl<T> Signal<T> {
     #[inline(always)]
     #[cfg(feature = "async")]
     pub(crate) fn will_wake(&self, waker: &Waker) -> bool {
+        #[cfg(kanal_verif)]
+        crate::verif::field_read(&self.waker);
         match &self.waker {
             KanalWaker::Async(w) => w.will_wake(waker),
             KanalWaker::Sync(_) | KanalWaker::None => unreachable!(),
@@ -238,6 +242,8 @@ impl<T> Signal<T> {
             }
             #[cfg(feature = "async")]
             KanalWaker::Async(w) => {
+                #[cfg(kanal_verif)]
+                crate::verif::field_read(&(*this).waker);
                 let w = w.clone();
                 (*this).state.store(state, Ordering::Release);
                 w.wake();
